@@ -219,9 +219,34 @@ def case(item):
     if r1.status != "ok" or bytes(r1.value) != msg1 or r2.status != "ok" \
             or bytes(r2.value) != msg2:
         rec["fails"].append("data exchange failed %r %r" % (r1, r2))
+    if info.tls13:
+        # the hash in the name also drives the KeyUpdate derivation: update
+        # both directions (client asks, server answers) and send more data
+        from tlslite.constants import KeyUpdateMessageType as KU
+        o = W.run_gen(pair.world, "C", c.send_keyupdate_request(
+            KU.update_requested))
+        msg3 = b"after update, client->server " + name.encode()
+        msg4 = b"after update, server->client " + name.encode()
+        pair.write("C", msg3)
+        r3 = pair.read("S", None, len(msg3))
+        pair.write("S", msg4)
+        r4 = pair.read("C", None, len(msg4))
+        if o.status != "ok" or r3.status != "ok" or \
+                bytes(r3.value or b"") != msg3 or r4.status != "ok" or \
+                bytes(r4.value or b"") != msg4:
+            rec["fails"].append("data exchange after KeyUpdate failed %r %r "
+                                "%r" % (o, r3, r4))
+        msg1 += msg3
+        msg2 += msg4
     w = refrecord.witness(view0, info, pair.world.c2s.log,
                           pair.world.s2c.log, c._clientRandom,
                           c._serverRandom)
+    if info.tls13:
+        nku = sum(1 for d in ("c2s", "s2c") for (t, pt, il, rl) in w[d]
+                  if t == 22 and pt[:1] == b"\x18")
+        if nku != 2:
+            rec["fails"].append("reference record layer saw %d KeyUpdate "
+                                "messages, expected one per direction" % nku)
     for e in w["errors"]:
         rec["fails"].append("reference record layer (keyed from the name) "
                             "cannot open a record: %s %s" % e)
